@@ -129,7 +129,112 @@ def _search_breaks(model, seed, given):
     return {"found": False}
 
 
-CHECKS = [check_sweep, check_random_breaks]
+def check_fixed_sites(tier, seed):
+    """SNVs are held fixed exactly when their single-SNV posterior probability of being homozygous reaches
+    fix_homozygous, and fixed SNVs reappear in the trace in the right column with the right allele"""
+    from rt.oracles import exact_posterior
+
+    rng = np.random.default_rng(seed + 15)
+    ev = nontriv = 0
+    fails = []
+    samples = []
+
+    def bad(key, fn, inp, obs, exp, how=""):
+        if len(fails) < 4 and not any(f["key"] == key for f in fails):
+            fails.append({"key": key, "check": fn, "input": inp, "observed": obs, "expected": exp, "how": how})
+
+    real = amcmc._denovo_assembler
+    captured = {}
+
+    def recorder(**kw):
+        captured.update(kw)
+        g = kw["genotype"]
+        steps = kw["steps"]
+        # recognisable trace: column c of the variable sites carries (c % n_alleles) in haplotype 0, 0 elsewhere
+        tr = np.zeros((1, steps) + g.shape, dtype=np.int8)
+        for c in range(g.shape[1]):
+            tr[0, :, 0, c] = (c + 1) % int(kw["n_alleles"][c])
+        return tr, np.zeros((1, steps))
+
+    amcmc._denovo_assembler = recorder
+    try:
+        for rep in range(40 if tier == "quick" else 400):
+            n_base = int(rng.integers(1, 6))
+            ploidy = int(rng.choice([2, 4]))
+            n_alleles = rng.integers(2, 4, size=n_base)
+            A = int(n_alleles.max())
+            F = float(rng.choice([0.0, 0.0, 0.2, 0.5]))
+            n_reads = int(rng.integers(1, 7))
+            reads = np.zeros((n_reads, n_base, A))
+            hom_sites = rng.random(n_base) < 0.5
+            for j in range(n_base):
+                n = int(n_alleles[j])
+                fav = int(rng.integers(0, n))
+                for r in range(n_reads):
+                    e = float(rng.choice([0.001, 0.02, 0.2]))
+                    a = fav if (hom_sites[j] or rng.random() < 0.5) else int(rng.integers(0, n))
+                    reads[r, j, :n] = e / max(n - 1, 1)
+                    reads[r, j, a] = 1 - e
+                    if rng.random() < 0.1:
+                        reads[r, j, :] = np.nan
+            counts = rng.integers(1, 4, size=n_reads).astype(np.int64)
+            thr = float(rng.choice([0.5, 0.9, 0.999, 1.0]))
+            # independent single-SNV posteriors
+            exp_fixed = {}
+            margin = 1.0
+            for j in range(n_base):
+                n = int(n_alleles[j])
+                Hs = np.arange(n, dtype=np.int8)[:, None]
+                gens, post = exact_posterior(reads[:, j : j + 1, :], counts, Hs, ploidy, [1.0 / n] * n, F)
+                for a in range(n):
+                    p = post[gens.index(tuple([a] * ploidy))]
+                    margin = min(margin, abs(p - thr))
+                    if p >= thr:
+                        exp_fixed[j] = a
+            # the screen's own probabilities against the independent posterior
+            hp = amcmc._homozygosity_probabilities(reads, n_alleles.astype(np.int8), ploidy, inbreeding=F, read_counts=counts)
+            for j in range(n_base):
+                n = int(n_alleles[j])
+                Hs = np.arange(n, dtype=np.int8)[:, None]
+                gens, post = exact_posterior(reads[:, j : j + 1, :], counts, Hs, ploidy, [1.0 / n] * n, F)
+                for a in range(n):
+                    p = post[gens.index(tuple([a] * ploidy))]
+                    if abs(float(hp[j, a]) - p) > 1e-7:
+                        bad("rt/homozygosity_probability", "mchap.assemble.mcmc._homozygosity_probabilities", {"reads_site": reads[:, j, :].tolist(), "read_counts": counts.tolist(), "n_alleles_site": n, "array_width": A, "ploidy": ploidy, "inbreeding": F, "allele": a}, float(hp[j, a]), p, "single-SNV posterior probability of being homozygous for the allele (exact enumeration)")
+            if margin < 1e-9:
+                continue  # exactly at the threshold: rounding decides
+            model = amcmc.DenovoMCMC(ploidy=ploidy, n_alleles=[int(x) for x in n_alleles], inbreeding=F, steps=5, chains=1, fix_homozygous=thr, random_seed=1)
+            captured.clear()
+            np.random.seed(rep)
+            gt, llk = model._mcmc(reads, counts)
+            ev += 1
+            nontriv += 0 < len(exp_fixed) < n_base
+            inp = {"reads": reads.tolist(), "read_counts": counts.tolist(), "n_alleles": n_alleles.tolist(), "ploidy": ploidy, "inbreeding": F, "fix_homozygous": thr}
+            var_cols = [j for j in range(n_base) if j not in exp_fixed]
+            if captured:
+                got_cols = captured["reads"].shape[1]
+                if got_cols != len(var_cols) or [int(x) for x in captured["n_alleles"]] != [int(n_alleles[j]) for j in var_cols]:
+                    bad("rt/fixed_iff_homozygous_posterior_reaches_threshold", "mchap.assemble.mcmc.DenovoMCMC._mcmc", inp, {"variable_sites_passed_to_sampler": got_cols, "n_alleles": [int(x) for x in captured["n_alleles"]]}, {"variable_sites": var_cols}, "independent single-SNV posterior (exact enumeration, flat prior over the SNV's alleles)")
+                    continue
+            elif var_cols:
+                bad("rt/fixed_iff_homozygous_posterior_reaches_threshold", "mchap.assemble.mcmc.DenovoMCMC._mcmc", inp, "all sites fixed", {"variable_sites": var_cols})
+                continue
+            # fixed columns restored with the right allele, variable columns in order
+            ok = gt.shape == (5, ploidy, n_base)
+            for j, a in exp_fixed.items():
+                ok = ok and bool((gt[:, :, j] == a).all())
+            for c, j in enumerate(var_cols):
+                ok = ok and bool((gt[:, 0, j] == (c + 1) % int(n_alleles[j])).all()) and bool((gt[:, 1:, j] == 0).all())
+            if not ok:
+                bad("rt/fixed_sites_reinserted", "mchap.assemble.mcmc.DenovoMCMC._mcmc", inp, gt[0].tolist(), {"fixed": {str(k): v for k, v in exp_fixed.items()}, "variable_columns": var_cols}, "trace columns: fixed allele at fixed sites, sampler columns in order elsewhere")
+            if len(samples) < 2:
+                samples.append({"n_base": n_base, "fixed": {str(k): v for k, v in exp_fixed.items()}, "threshold": thr})
+    finally:
+        amcmc._denovo_assembler = real
+    return {"bound": "seeded random loci (<=5 SNVs, 2-3 alleles, ploidy 2/4, F {0,.2,.5}) x thresholds {.5,.9,.999,1}", "evaluations": ev, "distinct_nontrivial": nontriv, "failures": fails, "samples": samples, "exhaustive": False}
+
+
+CHECKS = [check_sweep, check_random_breaks, check_fixed_sites]
 REPLAY = {
     "mchap.assemble.mutation.compound_step": _search_sweep,
     "mchap.assemble.structural.random_breaks": _search_breaks,
